@@ -101,7 +101,7 @@ def run_serve(argv: list[str], probe, cwd: str | None = None) -> dict:
         try:
             import structlog
 
-            structlog.configure(wrapper_class=structlog.make_filtering_bound_logger(50))
+            __import__('harness.core', fromlist=['core']).configure_harness_logging()      # put the harness logging configuration back
         except Exception:  # noqa: BLE001
             pass
     if box["started"] and not box["finished"]:
